@@ -37,9 +37,10 @@ func blameCorrespondenceEc(r *Run, rng *rand.Rand, thorough bool) {
 		{"KGRound1Message", "paillier_n", "g:shr8", 0}, {"KGRound1Message", "n_tilde", "g:shl8", 0}, {"KGRound1Message", "h2", "other", 0},
 		{"KGRound2Message1", "share", "+1", 0}, {"KGRound2Message1", "facProof", "+1", 6}, {"KGRound2Message1", "facProof", "empty", 2},
 		{"KGRound2Message2", "de_commitment", "+1", 1}, {"KGRound2Message2", "modProof", "+1", 3}, {"KGRound2Message2", "modProof", "drop-field", 0},
-		{"KGRound2Message2", "de_commitment", "drop-field", 0}, {"KGRound1Message", "commitment", "random", 0}}
+		{"KGRound2Message2", "de_commitment", "drop-field", 0}, {"KGRound1Message", "commitment", "random", 0},
+		{"KGRound2Message1", "share", "negq", 0}}
 	if !thorough {
-		pick := []int{0, 1 + int(r.Seed)%3, 4 + int(r.Seed)%3, 7 + int(r.Seed)%3, 10 + int(r.Seed)%3, 13 + int(r.Seed)%2}
+		pick := []int{0, 1 + int(r.Seed)%3, 4 + int(r.Seed)%3, 7 + int(r.Seed)%3, 10 + int(r.Seed)%3, 13 + int(r.Seed)%2, 15}
 		var t2 []tw
 		for _, i := range pick {
 			t2 = append(t2, tweaks[i])
